@@ -145,7 +145,7 @@ def _get_initial_guess(
     """
     # TODO might be nice to merge with ALS/other CP methods
     if isinstance(init, Sequence) and not isinstance(init, str):
-        return ttb.ktensor(init).normalize("all")
+        init = ttb.ktensor(init)
     if isinstance(init, ttb.ktensor):
         if init.shape != data.shape or init.ncomponents != rank:
             raise ValueError(
